@@ -74,6 +74,12 @@ structure Cfg where
   opn : Bool := true
   skip : Nat := 0
   idle : Nat := 0
+  split : Bool := true
+  mb : Option Nat := none
+  mu : Option Nat := none
+  dga : Bool := true
+  dgp : Bool := true
+  hs : String := ""
 
 def parseCfg (s : String) : Option Cfg :=
   (s.splitOn ",").foldlM (init := ({} : Cfg)) fun c kv =>
@@ -90,8 +96,26 @@ def parseCfg (s : String) : Option Cfg :=
         if v == "bi" then some { c with bi := true } else if v == "uni" then some { c with bi := false } else none
       else if k == "dir" then
         if v == "open" then some { c with opn := true } else if v == "acc" then some { c with opn := false } else none
+      else if k == "split" then
+        if v == "1" then some { c with split := true } else if v == "0" then some { c with split := false } else none
+      else if k == "mb" then v.toNat?.bind fun n => if n ≤ 1000 then some { c with mb := some n } else none
+      else if k == "mu" then v.toNat?.bind fun n => if n ≤ 1000 then some { c with mu := some n } else none
+      else if k == "dga" then
+        if v == "1" then some { c with dga := true } else if v == "0" then some { c with dga := false } else none
+      else if k == "dgp" then
+        if v == "1" then some { c with dgp := true } else if v == "0" then some { c with dgp := false } else none
+      else if k == "hs" then
+        if v == "rej" || v == "kill" || v == "z0" || v == "z0r" || v == "z0t" || v == "z0v" then some { c with hs := v } else none
       else none
     | _ => none
+
+/-- the combinations the harness refuses -/
+def cfgOk (c : Cfg) : Bool :=
+  (c.split || c.bi) &&
+  (if c.hs == "rej" then !c.client
+   else if c.hs == "kill" then c.client
+   else if c.hs == "" then true
+   else c.client && c.opn)
 
 /-- RFC 9000 §2.1: the two low bits say who opened the stream and whether it is unidirectional;
     the `skip` streams of the same kind opened before it take the lower indices. -/
@@ -135,6 +159,40 @@ structure Env where
   specPending : Bytes := []
   specWire : Bytes := []
   specClean : Bool := true
+  /-- the error the last write on the stream failed with (a failed write is *finished*) -/
+  specFailed : Option StreamErr := none
+  -- second part: openers, unsplit stream, unframed writes, datagrams, special set-ups
+  client : Bool := true
+  hs : String := ""
+  unsplit : Bool := false
+  usedB : Nat := 0                  -- streams the adapter side has opened so far, per kind
+  usedU : Nat := 0
+  concB : Nat := 100                -- the peer's max_concurrent_*_streams
+  concU : Nat := 100
+  limB : Nat := 100                 -- cumulative stream credit the peer grants (its `max_remote`)
+  limU : Nat := 100
+  annB : Nat := 100                 -- …and what it has announced of it (MAX_STREAMS)
+  annU : Nat := 100
+  closedU : Nat := 0                -- adapter-opened uni streams the peer has read to the end
+  opened : List (Bool × Nat) := []  -- streams opened by `ob`/`ou`: (bidirectional?, id)
+  tags : List Bytes := []           -- what `otag` wrote on the first `tags.length` of them
+  paccB : Nat := 0                  -- how many of them the peer has accepted, per kind
+  paccU : Nat := 0
+  pOpenB : Nat := 0                 -- streams the peer has opened, per kind
+  pOpenU : Nat := 0
+  takenB : Nat := 0                 -- …and how many of them the adapter side has accepted
+  takenU : Nat := 0
+  dga : Bool := true
+  dgp : Bool := true
+  dgToPeer : List Bytes := []
+  dgToA : List Bytes := []
+  ubuf : Option (List Bytes) := none
+  zeroRtt : Bool := false           -- the stream under test was opened in 0-RTT
+  zeroRej : Bool := false           -- …and the server rejected 0-RTT
+  zacc : Option Bool := none
+  killed : Bool := false
+  peerGone : Bool := false
+  aReason : Bytes := []
 
 /-- `ok` answers that let through `b` bytes of what `d` offers (header chunk, then payload chunk). -/
 def oksFor (d : WriteBuf) (b : Nat) : List Accept :=
@@ -146,6 +204,7 @@ def budget (e : Env) : Nat :=
 
 /-- What Quinn answers to the `poll_write`s of one immediate poll. -/
 def pollScript (e : Env) (d : WriteBuf) : List Accept :=
+  if e.zeroRej then [.err .zeroRttRejected] else
   match e.connKnown with
   | some x => [.err (.connectionLost x)]
   | none =>
@@ -167,6 +226,7 @@ def awaitTail (e : Env) : List Accept × Env :=
       else ([], e)
 
 def awaitScript (e : Env) (d : WriteBuf) : List Accept × Env :=
+  if e.zeroRej then ([.err .zeroRttRejected], e) else
   match e.connKnown with
   | some x => ([.err (.connectionLost x)], e)
   | none =>
@@ -179,12 +239,20 @@ def awaitScript (e : Env) (d : WriteBuf) : List Accept × Env :=
         let (t, e') := awaitTail e
         (oksFor d b ++ t, e')
 
+/-- `hs=kill`: the first packet that carries data to the dead peer's address is answered with a
+    stateless reset. -/
+def afterAccepted (e : Env) (acc : Bytes) : Env :=
+  if e.killed && !acc.isEmpty && e.connKnown.isNone then { e with connComing := some .reset } else e
+
 /-- Run a poll of the write half and fold the outcome into the environment. -/
 def applyPoll (e : Env) (o : PollOut) : Env :=
-  let e := { e with send := o.state, accepted := e.accepted ++ o.acc }
+  let e := afterAccepted { e with send := o.state, accepted := e.accepted ++ o.acc } o.acc
   match o.res with
   | .ok => { e with specBusy := false, specWire := e.specWire ++ e.specPending, specPending := [] }
-  | _ => e
+  | .err x =>
+    -- specification: a write that failed is over; the stream is free for the next `send_data`
+    if e.specBusy then { e with specBusy := false, specPending := [], specClean := false, specFailed := some x } else e
+  | .pending => e
 
 def specReady (tag : String) (r : Ready) : String :=
   match r with
@@ -196,7 +264,8 @@ def doPoll (e : Env) (tag : String) (await : Bool) : Env × String × String :=
   match e.send.writing with
   | none =>
     let o := pollReady e.send []
-    (applyPoll e o, s!"{tag}={readyStr o.res}", specReady tag o.res)
+    -- nothing is being written: `Ok`, or (after a failed write) the same error again — no opinion then
+    (applyPoll e o, s!"{tag}={readyStr o.res}", if e.specFailed.isSome then "*" else specReady tag o.res)
   | some d =>
     if await then
       let (sc, e') := awaitScript e d
@@ -208,13 +277,19 @@ def doPoll (e : Env) (tag : String) (await : Bool) : Env × String × String :=
 
 def doSend (e : Env) (tag : String) (hdr pl : Bytes) : Env × Bool × String × String :=
   let (s', r) := sendData e.send (WriteBuf.new hdr pl)
-  let sp := if e.specBusy then tag ++ "=refused" else tag ++ "=ok"
+  -- refused only while an earlier write is still pending; after a failed write the new buffer is either
+  -- accepted (and will fail the same way) or answered with that error at once — never the internal error
+  let sp := if e.specBusy then tag ++ "=refused" else
+    match e.specFailed with
+    | none => tag ++ "=ok"
+    | some x => s!"{tag}=ok|{tag}=err:" ++ (if specErr x then streamErrStr x else "*")
   match r with
   | .refused => ({ e with send := s' }, false, tag ++ "=refused", sp)
   | .ok => ({ e with send := s', specBusy := true, specPending := hdr ++ pl }, true, tag ++ "=ok", sp)
 
 /-- What the adapter's read future does when polled now (`await = false`) or when awaited. -/
 def readEv (e : Env) (await : Bool) : ReadEv × Env :=
+  if e.zeroRej then (.err .zeroRttRejected, e) else
   if e.allRead then (.fin, e) else
   match e.connKnown with
   | some x => (.err (.connectionLost x), e)
@@ -250,7 +325,7 @@ def doRead (e : Env) (await : Bool) : Env × RecvOut :=
   let (ev, e) := readEv e await
   let (r', o) := e.recv.step (.pollData ev)
   let e := { e with recv := r' }
-  ({ e with allRead := e.allRead || !r'.stops.isEmpty }, o)
+  ({ e with allRead := e.allRead || (!r'.stops.isEmpty && !e.zeroRej) }, o)
 
 /-- `rdall`: poll until the end or an error (fuel: one data event, then a terminal one, suffices). -/
 def readAll : Nat → Env → Env × String × String
@@ -262,6 +337,151 @@ def readAll : Nat → Env → Env × String × String
     | .fin => (e, s!"rdall={showHash e.aRead}:end", "*")
     | .pending => (e, "rdall=timeout", "*")
     | o => (e, "rdall=" ++ recvOutStr o, specRecv "rdall" o)
+
+/-! ### second part -/
+
+def connErrTok (x : ConnectionError) : String := "err:" ++ connErrStr (convertConn x)
+
+/-- the specification's view of an error token: class and code for the property's conditions -/
+def specConnTok (tag : String) (x : ConnectionError) : String :=
+  if specErr (.connection (convertConn x)) then s!"{tag}={connErrTok x}" else "*"
+
+/-- What an operation that waits for the connection eventually sees: the error already known, the
+    one on its way, the idle timeout — or nothing (the harness gives up: `timeout`). -/
+def awaitConn (e : Env) : Option ConnectionError × Env :=
+  match e.connKnown with
+  | some x => (some x, e)
+  | none =>
+    match e.connComing with
+    | some x => (some x, { e with connKnown := some x, connComing := none })
+    | none => if e.idle then (some .timedOut, { e with connKnown := some .timedOut }) else (none, e)
+
+def openId (e : Env) (bi : Bool) : Nat :=
+  if bi then 4 * e.usedB + (if e.client then 0 else 1) else 4 * e.usedU + 2 + (if e.client then 0 else 1)
+def acceptId (e : Env) (bi : Bool) : Nat :=
+  if bi then 4 * e.takenB + (if e.client then 1 else 0) else 4 * e.takenU + 2 + (if e.client then 1 else 0)
+
+/-- credit follows the peer's `max_concurrent` plus the streams it has finished with -/
+def relimit (e : Env) : Env :=
+  let e := { e with limB := max e.limB e.concB, limU := max e.limU (e.concU + e.closedU) }
+  -- Quinn (`queue_max_stream_id`): "only announce updates if at least 1/8 of the window has been consumed"
+  { e with annB := if e.limB - e.annB > e.concB / 8 then e.limB else e.annB,
+           annU := if e.limU - e.annU > e.concU / 8 then e.limU else e.annU }
+
+def closeUni : Nat → Env → Env
+  | 0, e => e
+  | n + 1, e => closeUni n (relimit { e with closedU := e.closedU + 1 })
+
+/-- Quinn's `open_bi()` / `open_uni()` future, polled once (`await = false`) or awaited. -/
+def openEv (e : Env) (bi await : Bool) : OpenEv × Env :=
+  match e.connKnown with
+  | some x => (.err x, e)
+  | none =>
+    if (if bi then e.usedB < e.annB else e.usedU < e.annU) then (.ok (openId e bi), e)
+    else if !await then (.pending, e)
+    else match awaitConn e with
+      | (some x, e') => (.err x, e')
+      | (none, e') => (.pending, e')
+
+def doOpen (e : Env) (tag : String) (bi await : Bool) : Env × String × String :=
+  let (ev, e) := openEv e bi await
+  let (_, out) := if bi then pollOpenBidi Opener.new ev else pollOpenSend Opener.new ev
+  match out with
+  | .pending => (e, tag ++ (if await then "=timeout" else "=pending"), "*")
+  | .bidi b =>
+    let ids := if recvId b.recv == .id b.sendId then toString b.sendId else s!"{b.sendId}/{recvOutStr (recvId b.recv)}"
+    ({ e with usedB := e.usedB + 1, opened := e.opened ++ [(true, b.sendId)] }, s!"{tag}={ids}", "*")
+  | .send id => ({ e with usedU := e.usedU + 1, opened := e.opened ++ [(false, id)] }, s!"{tag}={id}", "*")
+  | .err x => (e, s!"{tag}=err:{streamErrStr x}", if specErr x then s!"{tag}=err:{streamErrStr x}" else "*")
+
+/-- Quinn's `accept_bi()` / `accept_uni()`: streams that arrived come before the connection's error. -/
+def acceptEv (e : Env) (bi await : Bool) : OpenEv × Env :=
+  if (if bi then e.takenB < e.pOpenB else e.takenU < e.pOpenU) then (.ok (acceptId e bi), e)
+  else match e.connKnown with
+    | some x => (.err x, e)
+    | none =>
+      if !await then (.pending, e)
+      else match awaitConn e with
+        | (some x, e') => (.err x, e')
+        | (none, e') => (.pending, e')
+
+def doAccept (e : Env) (tag : String) (bi await : Bool) : Env × String × String :=
+  let (ev, e) := acceptEv e bi await
+  match (if bi then pollAcceptBidi ev else pollAcceptRecv ev) with
+  | .pending => (e, tag ++ (if await then "=timeout" else "=pending"), "*")
+  | .bidi b =>
+    let ids := if recvId b.recv == .id b.sendId then toString b.sendId else s!"{b.sendId}/{recvOutStr (recvId b.recv)}"
+    ({ e with takenB := e.takenB + 1 }, s!"{tag}={ids}", "*")
+  | .recv r => ({ e with takenU := e.takenU + 1 }, s!"{tag}={recvOutStr (recvId r)}", "*")
+  | .err x =>
+    (e, s!"{tag}=err:{connErrStr x}", if specErr (.connection x) then s!"{tag}=err:{connErrStr x}" else "*")
+
+/-- the frame `otag:<n>:<seed>` writes on the j-th opened stream -/
+def tagWire (n seed j : Nat) : Bytes := 0 :: Varint.encode (n + j) ++ payload (n + j) (seed + j)
+
+def paccItems : List (Nat × Bytes) → List String
+  | [] => []
+  | (id, w) :: r => s!"{id}:{showHash w}:fin" :: paccItems r
+
+/-- the opened streams of one kind with what was written on them (`none`: not written yet) -/
+def openedOfKind (e : Env) (bi : Bool) : List (Nat × Option Bytes) :=
+  ((List.range e.opened.length).zip e.opened).filterMap fun (j, (b, id)) =>
+    if b == bi then some (id, e.tags[j]?) else none
+
+def allSome : List (Nat × Option Bytes) → Option (List (Nat × Bytes))
+  | [] => some []
+  | (id, some w) :: r => (allSome r).map fun l => (id, w) :: l
+  | (_, none) :: _ => none
+
+/-- What Quinn answers to the one `poll_write` of an immediate `poll_send` offering `chunkLen` bytes. -/
+def unframedAnswer (e : Env) (chunkLen : Nat) : Accept :=
+  if e.zeroRej then .err .zeroRttRejected else
+  match e.connKnown with
+  | some x => .err (.connectionLost x)
+  | none =>
+    if e.peerStopKnown then .err (.stopped (e.peerStop.getD 0))
+    else if e.cw - e.accepted.length = 0 ∧ !e.peerReading then .pending
+    else if e.finished ∨ e.resetLocal.isSome then .err .closedStream
+    else if budget e = 0 then .pending
+    else .ok (min (budget e) chunkLen)
+
+def sendOutStr (o : SendOut) (await : Bool) : String :=
+  match o with
+  | .pending => if await then "timeout" else "pending"
+  | .ok k => toString k
+  | .err x => "err:" ++ streamErrStr x
+  | .refused => "refused"
+  | .panic => "panic"
+
+/-- one `poll_send` through the model; when awaited, a `Pending` answer is followed by whatever
+    condition surfaces (`awaitTail`) -/
+def doPollSend (e : Env) (buf : List Bytes) (await : Bool) : Env × USendOut :=
+  let a := unframedAnswer e (ubChunk buf).length
+  let (a, e) :=
+    if await && a == .pending && e.send.writing.isNone then
+      match awaitTail e with
+      | (x :: _, e') => (x, e')
+      | ([], e') => (a, e')
+    else (a, e)
+  let o := pollSend e.send buf a
+  let e := afterAccepted { e with accepted := e.accepted ++ o.acc, specWire := e.specWire ++ o.acc } o.acc
+  (e, o)
+
+def specPs (tag : String) (e : Env) (o : USendOut) : String :=
+  if e.specBusy then s!"{tag}=refused/{(ubView o.buf).length}" else
+  match o.res with
+  | .err x => if specErr x then s!"{tag}=err:{streamErrStr x}/{(ubView o.buf).length}" else "*"
+  | _ => "*"
+
+/-- `psall`: the callers' loop, one model call per iteration (fuel: two chunks, then the tail). -/
+def psAll : Nat → Env → List Bytes → Env × List Bytes × String
+  | 0, e, buf => (e, buf, "timeout")
+  | n + 1, e, buf =>
+    if (ubView buf).length = 0 then (e, buf, "ok") else
+    let (e', o) := doPollSend e buf true
+    match o.res with
+    | .ok _ => psAll n e' o.buf
+    | r => (e', o.buf, sendOutStr r true)
 
 def step (e : Env) (op : String) : Option (Env × String × String) :=
   let p := op.splitOn ":"
@@ -284,6 +504,7 @@ def step (e : Env) (op : String) : Option (Env × String × String) :=
   else if h == "pr" then if e.hasSend then some (doPoll e "pr" true) else none
   else if h == "fin" then
     if !e.hasSend then none else
+    if e.zeroRej then some (e, "fin=ok", "*") else
     if e.finished ∨ e.resetLocal.isSome then some (e, "fin=err:s.unknown:closed-stream", "*")
     else
       let e := { e with specClean := e.specClean && e.send.writing.isNone }
@@ -321,9 +542,9 @@ def step (e : Env) (op : String) : Option (Env × String × String) :=
     | some c =>
       let (r', o) := e.recv.step (.stopSending c)
       let e := { e with recv := r' }
-      some ({ e with allRead := e.allRead || !r'.stops.isEmpty }, (if o == .panic then "stop=panic" else "stop"), "*")
+      some ({ e with allRead := e.allRead || (!r'.stops.isEmpty && !e.zeroRej) }, (if o == .panic then "stop=panic" else "stop"), "*")
   else if h == "dropr" then
-    if !e.hasRecv then none else
+    if !e.hasRecv || e.unsplit then none else
     let (r', _) := e.recv.step .drop
     some ({ e with recv := r' }, "dropr", "*")
   else if h == "aclose" then
@@ -366,12 +587,14 @@ def step (e : Env) (op : String) : Option (Env × String × String) :=
       if !e.recv.alive then some (e, (if e.allRead then "pstopped=none" else "pstopped=0"), "*")
       else some (e, "pstopped=timeout", "*")
   else if h == "pclose" then
+    if e.peerGone then none else
     match num 1 with
     | none => none
     | some c =>
       if e.connKnown.isSome then some (e, "pclose", "*")
       else some ({ e with connComing := some (.applicationClosed c), peerReading := false }, "pclose", "*")
   else if h == "pclosed" then
+    if e.peerGone then none else
     match e.aClosed with
     | some c => some (e, s!"pclosed=app:{c}", "*")
     | none =>
@@ -379,6 +602,150 @@ def step (e : Env) (op : String) : Option (Env × String × String) :=
       | some (.applicationClosed _) => some (e, "pclosed=locally-closed", "*")
       | some .timedOut => some (e, "pclosed=timed-out", "*")
       | _ => if e.idle then some (e, "pclosed=timed-out", "*") else some (e, "pclosed=timeout", "*")
+  else if h == "split" then
+    if e.unsplit then some ({ e with unsplit := false }, "split", "*") else none
+  else if h == "z0" then
+    if !e.hasRecv || !e.recv.alive then none else some (e, (if e.zeroRtt then "z0=1" else "z0=0"), "*")
+  else if h == "zacc" then
+    match e.zacc with
+    | some b => some (e, (if b then "zacc=1" else "zacc=0"), "*")
+    | none => none
+  else if h == "ub" then
+    match num 1, num 2 with
+    | some n, some seed =>
+      let cut := min ((num 3).getD 0) n
+      let b := payload n seed
+      some ({ e with ubuf := some [b.take cut, b.drop cut] }, "ub", "*")
+    | _, _ => none
+  else if h == "ps1" || h == "ps" then
+    if !e.hasSend then none else
+    match e.ubuf with
+    | none => none
+    | some buf =>
+      let (e', o) := doPollSend e buf (h == "ps")
+      some ({ e' with ubuf := some o.buf }, s!"{h}={sendOutStr o.res (h == "ps")}/{(ubView o.buf).length}", specPs h e o)
+  else if h == "psall" then
+    if !e.hasSend then none else
+    match e.ubuf with
+    | none => none
+    | some buf =>
+      if e.send.writing.isSome then
+        if (ubView buf).length = 0 then some (e, "psall=ok/0", "*")
+        else some (e, s!"psall=refused/{(ubView buf).length}", s!"psall=refused/{(ubView buf).length}")
+      else
+      let (e', buf', r) := psAll 8 e buf
+      some ({ e' with ubuf := some buf' }, s!"psall={r}/{(ubView buf').length}",
+        if r.startsWith "err:c.appclose" || r.startsWith "err:c.timeout" || r.startsWith "err:s.terminated"
+        then s!"psall={r}/{(ubView buf').length}" else "*")
+  else if h == "ob1" || h == "ob" || h == "ou1" || h == "ou" then
+    match p[1]? with
+    | some w =>
+      if w == "c" || w == "o" || w == "k" then some (doOpen e h (h == "ob1" || h == "ob") (h == "ob" || h == "ou")) else none
+    | none => none
+  else if h == "ab1" || h == "ab" || h == "ar1" || h == "ar" then
+    some (doAccept e h (h == "ab1" || h == "ab") (h == "ab" || h == "ar"))
+  else if h == "otag" then
+    match num 1, num 2 with
+    | some n, some seed =>
+      let js := (List.range e.opened.length).drop e.tags.length
+      if js.isEmpty then some (e, "otag=0", "*") else
+      (match e.connKnown with
+       | some x =>
+         let t := s!"otag=err:{streamErrStr (convertWrite (.connectionLost x))}@{e.tags.length}"
+         some ({ e with tags := e.tags ++ [[]] }, t, if specErr (convertWrite (.connectionLost x)) then t else "*")
+       | none =>
+         let e' := { e with tags := e.tags ++ js.map (tagWire n seed) }
+         some (afterAccepted e' [0], s!"otag={js.length}", s!"otag={js.length}"))
+    | _, _ => none
+  else if h == "pacc" then
+    if e.peerGone then none else
+    match p[1]?, num 2 with
+    | some k, some n =>
+      if k != "bi" && k != "uni" then none else
+      let bi := k == "bi"
+      let done := if bi then e.paccB else e.paccU
+      let next := ((openedOfKind e bi).drop done).take n
+      if next.length < n then some (e, "pacc=timeout", "*") else
+      (match allSome next with
+       | none => some (e, "pacc=timeout", "*")
+       | some items =>
+         let t := if items.isEmpty then "pacc=-" else "pacc=" ++ ",".intercalate (paccItems items)
+         let e := if bi then { e with paccB := e.paccB + n } else closeUni n { e with paccU := e.paccU + n }
+         -- the specification: the peer sees exactly the opened streams, each once, with the bytes handed over
+         some (e, t, t))
+    | _, _ => none
+  else if h == "pmb" || h == "pmu" then
+    if e.peerGone then none else
+    match num 1 with
+    | some n =>
+      if n ≥ 2^62 || n < (if h == "pmb" then e.concB else e.concU) then none   -- only raising is modelled
+      else some (relimit (if h == "pmb" then { e with concB := n } else { e with concU := n }), h, "*")
+    | none => none
+  else if h == "pob" || h == "pou" then
+    if e.peerGone then none
+    else some ((if h == "pob" then { e with pOpenB := e.pOpenB + 1 } else { e with pOpenU := e.pOpenU + 1 }), h, "*")
+  else if h == "oclose" then
+    match p[1]?, num 2, (p[3]?).bind parseHex with
+    | some w, some c, some reason =>
+      if !(w == "c" || w == "o" || w == "k") then none else
+      (match closeArgs c reason with
+       | none => some (e, "oclose=panic", "*")
+       | some (c, reason) =>
+         if e.connKnown.isSome then some (e, "oclose", "*")
+         else some ({ e with connKnown := some .locallyClosed, aClosed := some c, aReason := reason }, "oclose", "*"))
+    | _, _, _ => none
+  else if h == "pclosedr" then
+    if e.peerGone then none else
+    match e.aClosed with
+    | some c => some (e, s!"pclosedr=app:{c}:{toHex e.aReason}", s!"pclosedr=app:{c}:*")
+    | none =>
+      match e.connKnown.orElse fun _ => e.connComing with
+      | some (.applicationClosed _) => some (e, "pclosedr=locally-closed", "*")
+      | some .timedOut => some (e, "pclosedr=timed-out", "*")
+      | _ => if e.idle then some (e, "pclosedr=timed-out", "*") else some (e, "pclosedr=timeout", "*")
+  else if h == "dgs" then
+    match num 1, num 2, num 3 with
+    | some sid, some n, some seed =>
+      if sid % 4 != 0 || sid ≥ 2^62 then none else
+      let wire := datagramWire (Varint.encode (sid / 4)) (payload n seed)
+      (match e.connKnown with
+       | some x =>
+         let d := convertSendDatagram (.connectionLost x)
+         let t := match d with
+           | .connection y => "dgs=err:" ++ connErrStr y
+           | .notAvailable => "dgs=not-available"
+           | .tooLarge => "dgs=too-large"
+         some (e, t, if specErr (.connection (convertConn x)) then t else "*")
+       | none =>
+         if !e.dga then some (e, "dgs=not-available", "*")       -- `Disabled`
+         else if !e.dgp then some (e, "dgs=not-available", "*")  -- `UnsupportedByPeer`
+         else if wire.length > 1500 then some (e, "dgs=too-large", "*")
+         else some (afterAccepted { e with dgToPeer := e.dgToPeer ++ [wire] } wire, "dgs=ok", "*"))
+    | _, _, _ => none
+  else if h == "pdg" then
+    if e.peerGone then none else
+    match e.dgToPeer with
+    | w :: r => some ({ e with dgToPeer := r }, s!"pdg={showHash w}", "*")
+    | [] => some (e, "pdg=timeout", "*")
+  else if h == "pdgs" then
+    if e.peerGone then none else
+    match num 1, num 2 with
+    | some n, some seed => some ({ e with dgToA := e.dgToA ++ [payload n seed] }, "pdgs", "*")
+    | _, _ => none
+  else if h == "dgr1" || h == "dgr" then
+    match e.dgToA with
+    | w :: r => some ({ e with dgToA := r }, s!"{h}={showHash w}", "*")
+    | [] =>
+      (match e.connKnown with
+       | some x => some (e, s!"{h}={connErrTok x}", specConnTok h x)
+       | none =>
+         if h == "dgr1" then some (e, "dgr1=pending", "*")
+         else match awaitConn e with
+           | (some x, e') => some (e', s!"dgr={connErrTok x}", specConnTok "dgr" x)
+           | (none, e') => some (e', "dgr=timeout", "*"))
+  else if h == "pkill" then
+    if e.hs != "kill" || e.killed then none
+    else some ({ e with killed := true, peerGone := true, peerReading := false }, "pkill", "*")
   else if h == "settle" then
     let e := match e.connComing with
       | some x => { e with connKnown := some x, connComing := none }
@@ -396,23 +763,64 @@ def runOps : Env → List String → Option (List String × List String)
       | none => none
       | some (ms, ss) => some (m :: ms, s :: ss)
 
+/-- A specification token `a|b` offers two answers. The line printed is the one with every first
+    answer, plus, for each such token, the alternative "same up to here, then `b`, then anything". -/
+def firstAlt (t : String) : String := (t.splitOn "|").headD t
+def specAlts : List String → List String → List String
+  | _, [] => []
+  | pre, t :: r =>
+    (match t.splitOn "|" with
+     | [_, b] => [" ".intercalate (pre ++ [b, "**"])]
+     | _ => []) ++ specAlts (pre ++ [firstAlt t]) r
+def specLine (ss : List String) : String :=
+  " || ".intercalate (" ".intercalate (ss.map firstAlt) :: specAlts [] ss)
+
 def handle : List String → String
   | "quinn" :: cfg :: ops =>
     match parseCfg cfg with
     | none => "bad-op"
     | some c =>
+      if !cfgOk c then "bad-op" else
       let id := streamId c
+      let has := c.hs != "rej"                      -- `hs=rej`: no stream under test, no peer connection
+      let rejected := c.hs == "z0r" || c.hs == "z0t" || c.hs == "z0v"
+      let mine := if has && c.opn then c.skip + 1 else 0     -- streams of the kind under test opened in the set-up
+      let theirs := if has && !c.opn then c.skip + 1 else 0
       let e : Env := {
         id := id
-        hasSend := c.bi || c.opn
-        hasRecv := c.bi || !c.opn
+        hasSend := has && (c.bi || c.opn)
+        hasRecv := has && (c.bi || !c.opn)
         sw := if c.sw = 0 then defaultStreamWindow else c.sw
         cw := if c.cw = 0 then unlimited else c.cw
         idle := c.idle > 0
-        recv := Recv.new id }
+        recv := Recv.new id
+        client := c.client
+        hs := c.hs
+        unsplit := has && !c.split
+        -- a rejected 0-RTT attempt is forgotten: Quinn numbers the streams from 0 again
+        usedB := if rejected then 0 else if c.bi then mine else 0
+        usedU := if rejected then 0 else if c.bi then 0 else mine
+        concB := c.mb.getD 100
+        concU := c.mu.getD 100
+        limB := c.mb.getD 100
+        limU := c.mu.getD 100
+        annB := c.mb.getD 100
+        annU := c.mu.getD 100
+        pOpenB := if c.bi then theirs else 0
+        pOpenU := if c.bi then 0 else theirs
+        takenB := if c.bi then theirs else 0
+        takenU := if c.bi then 0 else theirs
+        dga := c.dga
+        dgp := c.dgp
+        zeroRtt := c.hs == "z0" || rejected
+        zeroRej := rejected
+        zacc := if c.hs == "z0" then some true else if rejected then some false else none
+        peerGone := c.hs == "rej" || c.hs == "z0t" || c.hs == "z0v"
+        connComing := if c.hs == "rej" then some .connectionClosed else none
+        connKnown := if c.hs == "z0t" then some .transportError else if c.hs == "z0v" then some .versionMismatch else none }
       match runOps e ops with
       | none => "bad-op"
-      | some (ms, ss) => " ".intercalate ms ++ " ## " ++ " ".intercalate ss
+      | some (ms, ss) => " ".intercalate ms ++ " ## " ++ specLine ss
   | _ => "bad-op"
 
 end H3.Drv.C17
